@@ -110,6 +110,13 @@ func (e *Env) eval(x SExpr) *Val {
 			return e.fail("type[%s]: %v", n.Type, err)
 		}
 		return &Val{T: tInt, S: fmt.Sprint(u.tagOf(t))}
+	case *SHeapLit:
+		t, err := e.resolveType(n.Type)
+		if err != nil {
+			return e.fail("heap[%s]: %v", n.Type, err)
+		}
+		_, h := vc.heap(e.st, t)
+		return &Val{T: t, Srt: "(Array Int " + u.sortOf(t) + ")", ElemT: t, S: h}
 	case *SIdent:
 		return e.ident(n.Name)
 	case *SUnary:
@@ -196,6 +203,9 @@ func (e *Env) eval(x SExpr) *Val {
 func (e *Env) ident(name string) *Val {
 	if v, ok := e.vars[name]; ok {
 		return v
+	}
+	if name == "$rh" {
+		return &Val{T: tInt, S: e.st.rh}
 	}
 	if name == "$idx" {
 		if e.idx != nil {
@@ -305,7 +315,7 @@ func (e *Env) index(b, i *Val) *Val {
 	switch bt := types.Unalias(b.T).Underlying().(type) {
 	case *types.Slice:
 		_, h := vc.heap(e.st, bt.Elem())
-		return &Val{T: bt.Elem(), S: fmt.Sprintf("(select %s (+ (sptr %s) %s))", h, b.S, i.S)}
+		return &Val{T: bt.Elem(), S: fmt.Sprintf("(select %s (idx (sptr %s) %s))", h, b.S, i.S)}
 	case *types.Map:
 		_, _, val, _ := vc.mapArrays(e.st, bt)
 		return &Val{T: bt.Elem(), S: fmt.Sprintf("(select (select %s %s) %s)", val, b.S, i.S)}
@@ -605,6 +615,9 @@ func (e *Env) call(n *SCall) *Val {
 		s := "(" + uf.Name + " " + strings.Join(as, " ") + ")"
 		if len(as) == 0 {
 			s = uf.Name
+		}
+		if uf.ResT != nil {
+			return &Val{T: uf.ResT, S: s}
 		}
 		return &Val{T: uf.ResT, Srt: uf.ResSort, S: s}
 	}
